@@ -242,7 +242,7 @@ def flip(b, rnd):
     return b[:i] + bytes([b[i] ^ (1 << rnd.randrange(8))]) + b[i + 1:]
 
 
-CORR = ['none', 'none', 'none', 'sigbit', 'amount', 'output', 'sequence', 'locktime', 'drop_wit', 'extra_wit', 'empty_wit', 'proghash', 'control', 'wrong_key', 'scriptsig_junk', 'witscript_bit']
+CORR = ['none', 'none', 'none', 'sigbit', 'amount', 'output', 'sequence', 'locktime', 'drop_wit', 'extra_wit', 'empty_wit', 'proghash', 'control', 'wrong_key', 'scriptsig_junk', 'witscript_bit', 'wit_shape']
 
 
 def fix_txid(c):
@@ -311,6 +311,26 @@ def corrupt(c, kind, rnd):
         vin['script'] = b'\x51'
     elif kind == 'witscript_bit' and typ in ('p2wsh', 'p2wsh-script', 'p2sh-p2wsh'):
         vin['wit'][-1] = flip(vin['wit'][-1], rnd)
+    elif kind == 'wit_shape' and vin['wit']:
+        # unusual witness stack shapes: a lone annex-tagged item, only empty items, annex-tagged items in every position, a single huge item ...
+        shape = rnd.randrange(8)
+        a50 = b'\x50' + bytes(rnd.getrandbits(8) for _ in range(rnd.choice([0, 1, 31, 63, 64])))
+        if shape == 0:
+            vin['wit'] = [a50]
+        elif shape == 1:
+            vin['wit'] = [b'']
+        elif shape == 2:
+            vin['wit'] = [b'', b'']
+        elif shape == 3:
+            vin['wit'] = vin['wit'] + [a50]
+        elif shape == 4:
+            vin['wit'] = [a50, a50]
+        elif shape == 5:
+            vin['wit'] = [a50] + vin['wit'][1:]
+        elif shape == 6:
+            vin['wit'] = vin['wit'][-1:]
+        else:
+            vin['wit'] = [vin['wit'][-1], a50]
     else:
         return 'none'
     return kind
